@@ -29,12 +29,16 @@ def proto(meta):
     return ret, ([p.strip() for p in ps.split(",")] if ps and ps != "void" else [])
 
 
-def cxx_source(metas):
-    """one translation unit with the source text of every translated function"""
-    order, seen = [], set()
+def cxx_source(metas, allmeta):
+    """one translation unit with the source text of every translated function (and of the constants they read)"""
+    order, seen, consts = [], set(), []
 
     def put(n):
-        if n in seen or n not in metas:
+        if n in seen:
+            return
+        if n not in metas:
+            if n in allmeta and allmeta[n].get("src") and n not in consts:
+                consts.append(n)
             return
         seen.add(n)
         for c in metas[n]["callees"]:
@@ -43,6 +47,8 @@ def cxx_source(metas):
     for n in metas:
         put(n)
     out = ["#include <cstdint>", "#include <cstdio>", "#include <cstdlib>", "#include <cstring>", "#include <string>", ""]
+    for n in consts:
+        out.append(allmeta[n]["src"] + ";")
     nss = []
     classes = {}     # (namespaces, class) -> member declarations
     # class stubs and namespace-level prototypes first, so that out-of-line definitions find their declaration
@@ -192,7 +198,7 @@ def run_part(chk):
     src = os.path.join(wd, "leaf_impl.cc")
     exe = os.path.join(wd, "leaf_impl")
     with open(src, "w") as f:
-        f.write(cxx_source(metas))
+        f.write(cxx_source(metas, meta))
     rc, out = common.sh(["g++", "-std=c++20", "-O1", "-w", "-o", exe, src], timeout=300)
     if rc != 0:
         raise common.InfraError("leaf-translation: the source text of the translated functions does not compile on its own",
@@ -217,19 +223,29 @@ def run_part(chk):
             args.append(("true" if v else "false") if ty == "bool" else zl(v))
         t = "%s %s%s" % (n, ("%d%%nat " % FUEL) if m["fuel"] else "", " ".join(args))
         terms.append("(lf_b2z (%s))" % t if m["ret"] == "bool" else "(%s)" % t)
-    vfile = os.path.join(wd, "LeafEval.v")
-    with open(vfile, "w") as f:
-        f.write("From Coq Require Import ZArith List.\nFrom QV Require Import Base.LeafSem Gen.Leaf.\nImport ListNotations.\nLocal Open Scope Z_scope.\n")
-        f.write("Definition leaf_results : list Z :=\n [%s].\n" % ";\n  ".join(terms))
-        f.write("Set Printing Depth 10000000.\nSet Printing Width 100000.\nEval vm_compute in leaf_results.\n")
-    rc, out = common.sh(["timeout", "300", "coqc", "-Q", common.COQ, "QV", vfile], cwd=wd)
-    txt = out.decode("utf-8", "replace")
-    if rc != 0:
-        raise common.InfraError("leaf-translation: evaluation of the generated definitions failed", txt[-2000:])
-    mm = re.search(r"=\s*\[(.*?)\]\s*:\s*list Z", txt, re.S)
-    if not mm:
-        raise common.InfraError("leaf-translation: cannot read coqc's output", txt[-500:])
-    model = [int(x.strip().strip("()")) for x in mm.group(1).split(";") if x.strip()]
+    # evaluated in four coqc processes, in definitions of 250 terms each (one long list literal is slow to type-check)
+    def evaluate(k):
+        part = terms[k::4]
+        vfile = os.path.join(wd, "LeafEval%d.v" % k)
+        with open(vfile, "w") as f:
+            f.write("From Coq Require Import ZArith List.\nFrom QV Require Import Base.LeafSem Gen.Leaf.\nImport ListNotations.\nLocal Open Scope Z_scope.\n")
+            f.write("Set Printing Depth 10000000.\nSet Printing Width 100000.\n")
+            for j in range(0, len(part), 250):
+                f.write("Definition leaf_results_%d : list Z :=\n [%s].\nEval vm_compute in leaf_results_%d.\n" % (j, ";\n  ".join(part[j:j + 250]), j))
+        rc, out = common.sh(["timeout", "300", "coqc", "-Q", common.COQ, "QV", vfile], cwd=wd)
+        txt = out.decode("utf-8", "replace")
+        if rc != 0:
+            raise common.InfraError("leaf-translation: evaluation of the generated definitions failed", txt[-2000:])
+        vals = []
+        for mm in re.finditer(r"=\s*\[(.*?)\]\s*:\s*list Z", txt, re.S):
+            vals += [int(x.strip().strip("()")) for x in mm.group(1).split(";") if x.strip()]
+        if len(vals) != len(part):
+            raise common.InfraError("leaf-translation: coqc printed %d results for %d cases" % (len(vals), len(part)), txt[-500:])
+        return vals
+    parts = common.par_map(evaluate, range(4), workers=4)
+    model = [None] * len(terms)
+    for k in range(4):
+        model[k::4] = parts[k]
     if len(model) != len(allcases):
         raise common.InfraError("leaf-translation: coqc printed %d results for %d cases" % (len(model), len(allcases)))
     diffs = []
